@@ -104,6 +104,50 @@ func §gen() ITER[int] GEN[int]{
 	RETNIL
 }GEN
 `+StdEntry, "deleg:in-for-post", "deleg:in-switch"),
+		Raw("deleg-field-reassigned-during-delegation", `
+type §hold struct{ it ITER[int] }
+
+func §leaf(n, base int) ITER[int] GEN[int]{
+	for i := 0; i < n; i++ {
+		YIELD(base + i)
+	}
+	RETNIL
+}GEN
+func §gen() ITER[int] GEN[int]{
+	h := &§hold{}
+	h.it = func() ITER[int] GEN[int]{
+		YIELD(1)
+		h.it = §leaf(2, 50)
+		YIELD(2)
+		YIELD(3)
+		RETNIL
+	}GEN()
+	YFROM(h.it)
+	YIELD(-1)
+	arr := []ITER[int]{§leaf(2, 10), §leaf(2, 20)}
+	i := 0
+	YFROM(arr[i])
+	i = 1
+	YFROM(arr[i])
+	RETNIL
+}GEN
+func §E() {
+	drv.Run[int](func() drv.It[int] { it := §gen(); return it })
+	// the consumer reassigns the delegated field between two steps of the delegation
+	f := &§hold{it: §leaf(3, 100)}
+	g := func() ITER[int] GEN[int]{
+		YFROM(f.it)
+		YIELD(-2)
+		RETNIL
+	}GEN()
+	tr.V(1, g.MoveNext())
+	tr.V(2, g.Current())
+	f.it = §leaf(2, 900)
+	for g.MoveNext() {
+		tr.V(3, g.Current())
+	}
+}
+`, "deleg:field-reassigned"),
 		Raw("deleg-generic-and-method-generators", `
 type §box struct{ xs []int }
 
